@@ -352,6 +352,69 @@ def run(ctx: Ctx):
             col.ob("G13", "S4", f"{W('load_state_dict')}::realloc({a})<-{src}", src == a,
                    f"buffer `{a}` is re-allocated like `{src}`", rel, n.lineno, sample=u(n))
 
+    # nothing computed while loading reads the OLD contents of a buffer: until super().load_state_dict() has copied the incoming
+    # tensors, `self.<buffer>` still holds what the receiving instance had (nothing, for a freshly constructed one). Direct reads
+    # (other than of device / dtype) and reads inside a method of the class called with the corresponding argument left at its
+    # default (`self._infer_max_direct_descendants()` falls back to `self.offsets`) both count.
+    from sa.specialise import NOT_NONE as _NOT_NONE, specialise as _spec_l
+    sup = [n for n in own_nodes(load.node) if isinstance(n, ast.Call) and isinstance(n.func, ast.Attribute) and n.func.attr == "load_state_dict"
+           and isinstance(n.func.value, ast.Call) and call_name(n.func.value) == "super"]
+    sup_line = min((n.lineno for n in sup), default=10 ** 9)
+    pml = parent_map(load.node)
+
+    def _content_reads(root, regs_):
+        pm_ = parent_map(root)
+        out_ = []
+        for x in ast.walk(root):
+            if isinstance(x, ast.Attribute) and isinstance(x.ctx, ast.Load) and u(x.value) == "self" and x.attr in regs_:
+                par = pm_.get(x)
+                if isinstance(par, ast.Attribute) and par.attr in ("device", "dtype"):
+                    continue
+                out_.append(x)
+        return out_
+    stale = [(x, None) for x in _content_reads(load.node, regs) if x.lineno < sup_line]
+    n_calls = 0
+    cls_l = pkg.cls(f"{MOD}::{CLS}")
+    for c in own_calls(load.node):
+        if not (isinstance(c.func, ast.Attribute) and u(c.func.value) == "self" and c.lineno < sup_line):
+            continue
+        ms = res.find_method(cls_l, c.func.attr)
+        if not ms:
+            continue
+        g_ = ms[0]
+        try:
+            b_ = bind_args(c, g_, True)
+        except Exception:
+            continue
+        n_calls += 1
+        consts = {}
+        for p_ in g_.params:
+            if p_.name == "self":
+                continue
+            if p_ in b_.defaulted:
+                if isinstance(p_.default, ast.Constant):
+                    consts[p_.name] = p_.default.value
+            else:
+                a_ = b_.arg_for(p_.name)
+                if isinstance(a_, ast.Constant):
+                    consts[p_.name] = a_.value
+                elif a_ is not None:
+                    consts[p_.name] = _NOT_NONE  # (an incoming tensor handed over explicitly)
+        try:
+            view, _ = _spec_l(g_.node, consts, allow_reassigned=tuple(consts), inline_tests=True)
+        except Exception:
+            view = g_.node
+        for x in _content_reads(view, regs):
+            stale.append((x, c))
+    col.floor("methods_called_while_loading", n_calls, 1)
+    col.ob("G10", "S4", f"{W('load_state_dict')}::nothing-reads-the-old-buffers", not stale,
+           (f"`{u(stale[0][1])[:70]}` reads `self.{stale[0][0].attr}` (argument left at its default)" if stale and stale[0][1] is not None else
+            (f"`self.{stale[0][0].attr}` is read at line {stale[0][0].lineno}" if stale else "")) +
+           " before super().load_state_dict() has copied the incoming tensors: the value is computed from the receiving instance's old "
+           "table (empty for a freshly constructed model), so the loaded model does not answer like the saved one", rel,
+           (stale[0][1].lineno if stale and stale[0][1] is not None else (stale[0][0].lineno if stale else load.line)),
+           sample=dict(calls=n_calls, stale=len(stale)))
+
     # ---- S5 one code path -------------------------------------------------------------------------------
     full = pkg.func(f"{MOD}::{CLS}.calc_full_log_probs")
     rets = [st for st, _ in ReachingDefs(full.node).return_envs]
